@@ -30,7 +30,7 @@ class C16(Prop):
     design_ref = '§5 C16'
     rule = ('configurations (periods from 1 us to hours incl. sub-second and sub-millisecond parts, encodings as bytes/str/enum, lease on/off, setup payload present/absent) x transports whose '
             'provider suspends 0..3 and connect() 0..4 loop iterations x requests injected at each iteration; SETUP/RESUME frames of all flag combinations against a real server with and without '
-            'lease publisher and with on_setup raising; the SETUP of the connections made by reconnect() compared with the first one; non-trivial = a request issued before connect() returned, a sub-second period, or a rejected setup; distinct = distinct case')
+            'lease publisher and with on_setup raising; the SETUP of the connections made by reconnect() - after a healthy connection, a server EOF, or a keepalive timeout with reconnect() called from on_keepalive_timeout; connect() of the new transport suspending 0..3 iterations - compared with the first one (a connection that carries no SETUP at all counts as different); non-trivial = a request issued before connect() returned, a sub-second period, or a rejected setup; distinct = distinct case')
     assumptions = []
 
     def cases(self, rng, tier):
@@ -48,7 +48,9 @@ class C16(Prop):
                     return {'as': 'bytes', 'name': bytes(97 + rng.randrange(26) for _ in range(rng.choice([1, 5, 127]))).hex()}
                 return {'as': k, 'name': rng.choice(names).hex()}
             out.append({'kind': 'fields', 'reconnects': rng.choice([0, 0, 1, 2]), 'ka': period(), 'life': period(), 'denc': enc(), 'mdenc': enc(), 'lease': rng.random() < 0.4,
-                        'payload': rng.choice([None, {'d': 'aa', 'md': ''}, {'d': '', 'md': 'bbcc'}, {'d': '0102', 'md': '03'}])})
+                        'payload': rng.choice([None, {'d': 'aa', 'md': ''}, {'d': '', 'md': 'bbcc'}, {'d': '0102', 'md': '03'}]),
+                        # how each earlier connection ended, and whether the transports' connect() suspends
+                        'causes': [rng.choice(['healthy', 'eof', 'timeout', 'timeout']) for _ in range(2)], 'c': rng.choice([0, 0, 1, 3])})
         for _ in range(n):
             p, c = rng.randint(0, 3), rng.randint(0, 4)
             ticks = p + c + 4
@@ -73,16 +75,37 @@ class C16(Prop):
         kw = dict(data_encoding=enc_value(case['denc']), metadata_encoding=enc_value(case['mdenc']), honor_lease=case['lease'])
         if case['payload'] is not None:
             kw['setup_payload'] = Payload(bytes.fromhex(case['payload']['d']), bytes.fromhex(case['payload']['md']))
-        R = clientrun.ClientRun(loop, n_transports=3 if case.get('reconnects') else 1, **kw)
+        R = clientrun.ClientRun(loop, n_transports=3 if case.get('reconnects') else 1, connect_ticks=case.get('c', 0), **kw)
         R.ka_ms, R.life_ms = case['ka'] / 1000.0, case['life'] / 1000.0
         c = R.build()
         await c.connect()
         await loop.settle()
         first = R.transports[0].sent[0]
         later = []
+        from harness import simnet
         for k in range(case.get('reconnects', 0)):
-            # every connection of the client opens with the same SETUP
-            await c.reconnect()
+            # every connection of the client opens with the same SETUP, however the previous one ended
+            cause = (case.get('causes') or ['healthy', 'healthy'])[k]
+            if cause == 'timeout' and not (R.life_ms <= 20_000 and R.life_ms / max(R.ka_ms, 0.001) <= 200):
+                cause = 'healthy'        # (a silent server for days of virtual time with a millisecond keepalive period: too many timer events)
+            nconnects = R.log.count('C')
+            if cause == 'timeout':
+                # the server falls silent; the application reconnects from its keepalive-timeout callback
+                R.auto_reconnect_on_timeout = True
+                for _ in range(6):
+                    await loop.advance(R.life_ms + R.ka_ms + 1)
+                    if R.log.count('C') > nconnects:
+                        break
+                R.auto_reconnect_on_timeout = False
+            else:
+                if cause == 'eof':
+                    R.transports[k].deliver(simnet.EOF_MARK)
+                    await loop.settle()
+                await c.reconnect()
+            for _ in range(200):
+                await asyncio.sleep(0)
+                if R.log.count('C') > nconnects:
+                    break
             await loop.settle()
             tk = R.transports[k + 1]
             later.append(tk.sent[0][1] if tk.sent else None)
